@@ -12,7 +12,9 @@ namespace QmiModel.Task
 def Pc.ranOut? : Pc → Bool | .ranOut _ => true | _ => false
 
 structure Inv (s : State) : Prop where
-  init_iff   : s.pc = .init ↔ s.st = .initial
+  init_st    : s.pc = .init → (s.st = .initial ∨ (s.st = .stopped ∧ s.shut = true))
+  initial_pc : s.st = .initial → s.pc = .init
+  up_pc      : (s.phase = .up ∨ s.phase = .removed) → s.pc ≠ .init
   ready_pc   : s.st = .ready → s.pc = .waiting
   waiting    : s.pc = .waiting → (s.st = .ready ∨ s.st = .running ∨ s.st = .stopped)
   inside     : (s.pc = .goRun ∨ s.pc = .inRun ∨ s.pc = .inUpd ∨ s.pc = .inPub ∨ s.pc.ranOut? = true) → s.st = .running
@@ -21,12 +23,13 @@ structure Inv (s : State) : Prop where
   up_st      : s.phase = .up → (s.st ≠ .initial ∧ s.st ≠ .excInit)
   ctor1_st   : s.phase = .ctor1 → s.st ≠ .initial
   rpc_up     : s.rpc ≠ .idle → s.phase = .up
-  startMid   : s.rpc = .startMid → s.st = .ready
+  startMid   : s.rpc = .startMid → (s.st = .ready ∨ (s.shut = true ∧ s.st = .stopped))
   runs_def   : s.runs = if (s.pc = .inRun ∨ s.pc = .inUpd ∨ s.pc = .inPub ∨ s.pc.ranOut? = true ∨
                              s.st = .completed ∨ s.st = .excRun)
                         then 1 else 0
   started_iff   : s.started = true ↔ (s.st = .running ∨ s.st = .completed ∨ s.st = .excRun)
-  stopFirst_iff : s.stopFirst = true ↔ s.st = .stopped
+  stopped_sf : s.st = .stopped → s.stopFirst = true
+  sf_st      : s.stopFirst = true → (s.st = .stopped ∨ (s.st = .excInit ∧ s.shut = true))
   exc_iff    : s.exc = true ↔ (s.st = .excInit ∨ s.st = .excRun)
   out_pc     : ∀ o, s.pc = .ranOut o → s.runOutcome = some o
   out_none   : (s.pc = .init ∨ s.pc = .waiting ∨ s.pc = .goRun ∨ s.pc = .inRun ∨ s.pc = .inUpd ∨ s.pc = .inPub ∨
@@ -38,6 +41,9 @@ structure Inv (s : State) : Prop where
   inUpd_slot : s.pc = .inUpd → s.slot.isSome = true
   joined_ended  : s.joined = true → s.pc = .ended
   removed_joined : s.phase = .removed → s.joined = true
+  compJoin_stop  : ∀ c, s.rpc = .compJoin c → (s.stopReq = true ∨ s.st = .stopped)
+  ext_shut   : 0 < s.extMid → s.shut = true
+  joinMid_ended : ∀ c, s.rpc = .joinMid c → s.pc = .ended
   inPub_settings : s.pc = .inPub → s.settings.isSome = true
   pub_def    : s.adopted = s.published ++ (if s.pc = .inPub then s.settings.toList else [])
   settings_runs : s.settings.isSome = true → s.runs = 1
@@ -54,7 +60,7 @@ macro_rules
         first
         | contradiction
         | (simp only [Option.some.injEq] at $hs:ident; subst $hs:ident
-           constructor <;> simp_all [Pc.ranOut?, Rpc.afterStop] <;> (try (split <;> simp_all)))))
+           constructor <;> first | grind [Pc.ranOut?, Rpc.afterStop] | simp_all [Pc.ranOut?, Rpc.afterStop])))
 
 theorem inv_initOk {s s' : State} (h : Inv s) (hs : step s .initOk = some s') : Inv s' := by
   obtain ⟨⟩ := h; inv_tac hs
@@ -77,6 +83,10 @@ theorem inv_getStatus {s s' : State} (h : Inv s) (hs : step s .getStatus = some 
 theorem inv_exitBegin {s s' : State} (h : Inv s) (hs : step s .exitBegin = some s') : Inv s' := by
   obtain ⟨⟩ := h; inv_tac hs
 theorem inv_releaseBegin {s s' : State} (h : Inv s) (hs : step s .releaseBegin = some s') : Inv s' := by
+  obtain ⟨⟩ := h; inv_tac hs
+theorem inv_extStopRegion {s s' : State} (h : Inv s) (hs : step s .extStopRegion = some s') : Inv s' := by
+  obtain ⟨⟩ := h; inv_tac hs
+theorem inv_extStopSet {s s' : State} (h : Inv s) (hs : step s .extStopSet = some s') : Inv s' := by
   obtain ⟨⟩ := h; inv_tac hs
 theorem inv_runEnd {s s' : State} (o : Outcome) (h : Inv s) (hs : step s (.runEnd o) = some s') : Inv s' := by
   obtain ⟨⟩ := h; inv_tac hs
@@ -120,7 +130,7 @@ macro_rules
         first
         | contradiction
         | (simp only [Option.some.injEq] at $hs:ident; subst $hs:ident
-           constructor <;> simp_all [Pc.ranOut?, Rpc.afterStop])))
+           constructor <;> first | grind [Pc.ranOut?, Rpc.afterStop] | simp_all [Pc.ranOut?, Rpc.afterStop])))
 
 theorem inv_stopRegion_plain {s s' : State} (h : Inv s) (hc : s.stopCtx = some .plain)
     (hs : step s .stopRegion = some s') : Inv s' := by
@@ -144,26 +154,30 @@ theorem inv_stopRegion {s s' : State} (h : Inv s) (hs : step s .stopRegion = som
     · exact inv_stopRegion_release h hc hs
 theorem inv_stopSet {s s' : State} (h : Inv s) (hs : step s .stopSet = some s') : Inv s' := by
   obtain ⟨⟩ := h; inv_tac hs
-theorem inv_join_plain {s s' : State} (h : Inv s) (hc : s.joinCtx = some .plain)
-    (hs : step s .join = some s') : Inv s' := by
-  obtain ⟨hup, hr⟩ := joinCtx_some hc
-  obtain ⟨⟩ := h; inv_ctx_tac hs hc
-theorem inv_join_exit {s s' : State} (h : Inv s) (hc : s.joinCtx = some .exit)
-    (hs : step s .join = some s') : Inv s' := by
-  obtain ⟨hup, hr⟩ := joinCtx_some hc
-  obtain ⟨⟩ := h; inv_ctx_tac hs hc
-theorem inv_join_release {s s' : State} (h : Inv s) (hc : s.joinCtx = some .release)
-    (hs : step s .join = some s') : Inv s' := by
-  obtain ⟨hup, hr⟩ := joinCtx_some hc
-  obtain ⟨⟩ := h; inv_ctx_tac hs hc
 theorem inv_join {s s' : State} (h : Inv s) (hs : step s .join = some s') : Inv s' := by
   cases hc : s.joinCtx with
   | none => simp [step, hc] at hs
   | some c =>
+    obtain ⟨hup, hr⟩ := joinCtx_some hc
+    obtain ⟨⟩ := h; inv_ctx_tac hs hc
+
+theorem inv_joinSet_plain {s s' : State} (h : Inv s) (hc : s.rpc = .joinMid .plain)
+    (hs : step s .joinSet = some s') : Inv s' := by
+  obtain ⟨⟩ := h; inv_ctx_tac hs hc
+theorem inv_joinSet_exit {s s' : State} (h : Inv s) (hc : s.rpc = .joinMid .exit)
+    (hs : step s .joinSet = some s') : Inv s' := by
+  obtain ⟨⟩ := h; inv_ctx_tac hs hc
+theorem inv_joinSet_release {s s' : State} (h : Inv s) (hc : s.rpc = .joinMid .release)
+    (hs : step s .joinSet = some s') : Inv s' := by
+  obtain ⟨⟩ := h; inv_ctx_tac hs hc
+theorem inv_joinSet {s s' : State} (h : Inv s) (hs : step s .joinSet = some s') : Inv s' := by
+  cases hc : s.rpc with
+  | joinMid c =>
     cases c
-    · exact inv_join_plain h hc hs
-    · exact inv_join_exit h hc hs
-    · exact inv_join_release h hc hs
+    · exact inv_joinSet_plain h hc hs
+    · exact inv_joinSet_exit h hc hs
+    · exact inv_joinSet_release h hc hs
+  | _ => simp [step, hc] at hs
 theorem inv_isRunning {s s' : State} (h : Inv s) (hs : step s .isRunning = some s') : Inv s' := by
   obtain ⟨⟩ := h; inv_tac hs
 theorem inv_setSettings {s s' : State} (v : Nat) (h : Inv s) (hs : step s (.setSettings v) = some s') : Inv s' := by
@@ -172,6 +186,31 @@ theorem inv_getSettings {s s' : State} (h : Inv s) (hs : step s .getSettings = s
   obtain ⟨⟩ := h; inv_tac hs
 theorem inv_getPending {s s' : State} (h : Inv s) (hs : step s .getPending = some s') : Inv s' := by
   obtain ⟨⟩ := h; inv_tac hs
+
+theorem join_enabled {s s' : State} (hj : step s .join = some s') : s.phase = .up ∧ s.pc = .ended := by
+  cases hc : s.joinCtx with
+  | none => simp [step, hc] at hj
+  | some c =>
+    refine ⟨(joinCtx_some hc).1, ?_⟩
+    simp only [step, hc] at hj
+    split at hj
+    · assumption
+    · contradiction
+
+theorem joinSet_enabled {s s' : State} (hj : step s .joinSet = some s') :
+    s.phase = .up ∧ ∃ c, s.rpc = .joinMid c := by
+  simp only [step] at hj
+  split at hj
+  · rename_i c hc
+    split at hj
+    · rename_i hup; exact ⟨hup, c, hc⟩
+    · contradiction
+  · contradiction
+
+theorem stop_enabled {s s' : State} (hj : step s .stopRegion = some s') : s.phase = .up := by
+  cases hc : s.stopCtx with
+  | none => simp [step, hc] at hj
+  | some c => exact (stopCtx_some hc).1
 
 /-- `Inv` is inductive: preserved by every enabled action of every actor -/
 theorem inv_step {s s' : State} {a : Act} (h : Inv s) (hs : step s a = some s') : Inv s' := by
@@ -187,6 +226,8 @@ theorem inv_step {s s' : State} {a : Act} (h : Inv s) (hs : step s a = some s') 
   | getStatus => exact inv_getStatus h hs
   | exitBegin => exact inv_exitBegin h hs
   | releaseBegin => exact inv_releaseBegin h hs
+  | extStopRegion => exact inv_extStopRegion h hs
+  | extStopSet => exact inv_extStopSet h hs
   | runEnd o => exact inv_runEnd o h hs
   | mark => exact inv_mark h hs
   | threadEnd => exact inv_threadEnd h hs
@@ -197,6 +238,7 @@ theorem inv_step {s s' : State} {a : Act} (h : Inv s) (hs : step s a = some s') 
   | stopRegion => exact inv_stopRegion h hs
   | stopSet => exact inv_stopSet h hs
   | join => exact inv_join h hs
+  | joinSet => exact inv_joinSet h hs
   | isRunning => exact inv_isRunning h hs
   | setSettings v => exact inv_setSettings v h hs
   | getSettings => exact inv_getSettings h hs
@@ -261,9 +303,10 @@ theorem step_started {s s' : State} {a : Act} (hs : step s a = some s') :
     s'.started = (s.started || (a == .startKick && s.st == .ready)) := by
   cases a <;> frame_tac hs
 
-/-- `stopFirst` is set by a `stop_task` region that found INITIAL / READY_TO_RUN, and by nothing else; never cleared -/
+/-- `stopFirst` is set by a `stop_task` region (on the RPC worker or outside it) that found INITIAL / READY_TO_RUN,
+and by nothing else; never cleared -/
 theorem step_stopFirst {s s' : State} {a : Act} (hs : step s a = some s') :
-    s'.stopFirst = (s.stopFirst || (a == .stopRegion && (s.st == .ready || s.st == .initial))) := by
+    s'.stopFirst = (s.stopFirst || ((a == .stopRegion || a == .extStopRegion) && (s.st == .ready || s.st == .initial))) := by
   cases a <;> frame_tac hs
 
 /-- posting history: `lastPosted` is the argument of the latest `setSettings` -/
@@ -284,7 +327,30 @@ theorem step_settings {s s' : State} {a : Act} (hs : step s a = some s') :
     s'.settings = (match a with | .updPop => (match s.slot with | some v => some v | none => s.settings) | _ => s.settings) := by
   cases a <;> frame_tac hs
 
+/-- `_joined` is set by a `join` that found one of the three final states, and is never cleared -/
+theorem step_joined {s s' : State} {a : Act} (hs : step s a = some s') :
+    s'.joined = (s.joined || (a == .joinSet && (s.st == .completed || s.st == .stopped || s.st == .excRun))) := by
+  cases a <;> frame_tac hs
+
+/-- a removed runner stays removed -/
+theorem step_removed {s s' : State} {a : Act} (hs : step s a = some s') (h : s.phase = .removed) :
+    s'.phase = .removed := by
+  cases a <;> frame_tac hs
+
+/-- `task.status` changes only when the task body writes it -/
+theorem step_status {s s' : State} {a : Act} (hs : step s a = some s') :
+    s'.status = (match a with | .setStatus v => some v | _ => s.status) := by
+  cases a <;> frame_tac hs
+
 /-! ### ghost fields as functions of the history alone -/
+
+/-- the value the task body wrote to `self.status` last, read off the history -/
+def lastStatusFrom (o : Option Nat) : List Act → Option Nat
+  | [] => o
+  | .setStatus v :: t => lastStatusFrom (some v) t
+  | _ :: t => lastStatusFrom o t
+
+def lastStatus (tr : List Act) : Option Nat := lastStatusFrom none tr
 
 /-- "a value was posted since the previous successful update", read off the history -/
 def postedSinceFrom (b : Bool) : List Act → Bool
@@ -344,6 +410,39 @@ theorem exec_lastPosted {tr : List Act} {s s' : State} (he : exec s tr = some s'
     obtain ⟨s1, h1, h2⟩ := exec_cons.1 he
     rw [ih h2, step_lastPosted h1]
     cases a <;> simp [lastPostFrom]
+
+theorem exec_status {tr : List Act} {s s' : State} (he : exec s tr = some s') :
+    s'.status = lastStatusFrom s.status tr := by
+  induction tr generalizing s with
+  | nil => simp only [exec, Option.some.injEq] at he; simp [he, lastStatusFrom]
+  | cons a t ih =>
+    obtain ⟨s1, h1, h2⟩ := exec_cons.1 he
+    rw [ih h2, step_status h1]
+    cases a <;> simp [lastStatusFrom]
+
+/-- from a joined state on, the state stays joined and `run()` is not invoked again -/
+theorem exec_no_run_after_joined {tr : List Act} {s s' : State} (hr : Reachable s) (hj : s.joined = true)
+    (he : exec s tr = some s') : s'.joined = true ∧ tr.count .runEnter = 0 := by
+  induction tr generalizing s with
+  | nil => simp only [exec, Option.some.injEq] at he; subst he; exact ⟨hj, rfl⟩
+  | cons a t ih =>
+    obtain ⟨s1, h1, h2⟩ := exec_cons.1 he
+    have hpc := (inv_reachable hr).joined_ended hj
+    have hne : a ≠ .runEnter := by
+      intro ha; subst ha; simp [step, hpc] at h1
+    have hj1 : s1.joined = true := by rw [step_joined h1, hj]; rfl
+    obtain ⟨h3, h4⟩ := ih (reachable_step hr h1) hj1 h2
+    refine ⟨h3, ?_⟩
+    rw [List.count_cons]
+    simp [hne, h4]
+
+theorem exec_removed_stable {tr : List Act} {s s' : State} (he : exec s tr = some s') (h : s.phase = .removed) :
+    s'.phase = .removed := by
+  induction tr generalizing s with
+  | nil => simp only [exec, Option.some.injEq] at he; exact he ▸ h
+  | cons a t ih =>
+    obtain ⟨s1, h1, h2⟩ := exec_cons.1 he
+    exact ih h2 (step_removed h1 h)
 
 /-- if `started` holds after a history it was raised by a `startKick` taken in READY_TO_RUN somewhere in it -/
 theorem started_witness {tr : List Act} {s s' : State} (he : exec s tr = some s') (h0 : s.started = false)
